@@ -537,15 +537,15 @@ func runWorker(ld *loaded, h *harness, stubs map[string]*ssa.Function, tier stri
 }
 
 type knownFinding struct {
-	Property string   `json:"property"`
-	Harness  string   `json:"harness"`
-	Kind     string   `json:"kind"`
-	Match    string   `json:"match"`               // substring of "pos | msg"
-	MatchAll []string `json:"match_all,omitempty"` // further substrings that must all occur
+	Property   string   `json:"property"`
+	Harness    string   `json:"harness"`
+	Kind       string   `json:"kind"`
+	Match      string   `json:"match"`                 // substring of "pos | msg"
+	MatchAll   []string `json:"match_all,omitempty"`   // further substrings that must all occur
 	MatchTrace []string `json:"match_trace,omitempty"` // substrings that must all occur in the notes of the failing path (the history)
-	Status   string   `json:"status"`              // known | fixed
-	What     string   `json:"what"`
-	Commit   string   `json:"commit,omitempty"`
+	Status     string   `json:"status"`                // known | fixed
+	What       string   `json:"what"`
+	Commit     string   `json:"commit,omitempty"`
 }
 
 // knownClass: index of the status=known finding that violation v of property prop matches, or -1.
